@@ -478,6 +478,8 @@ def known_class(step, failure, prev, y_prev):
             return "single-unknown-chunk"
         if step == "diff" and failure == "dask-raises:TypeError" and y_prev.dtype == bool:
             return "bool-input"
+        if step == "sliding" and failure == "dask-raises:ValueError" and y_prev.ndim >= 2 and 0 in y_prev.shape[:-1] and y_prev.shape[-1] >= 2:
+            return "zero-length-other-axis"
     except Hang:
         raise
     except Exception:  # noqa: BLE001
@@ -558,6 +560,10 @@ def run_case(case, ctx):
                     # a priori: dask documents that operations which need the chunk sizes fail on arrays with unknown
                     # chunk sizes; the exception type/message of such a refusal is not part of any statement
                     ctx.count("rejected_unknown_chunks")
+                    return
+                if s in ("map_overlap", "overlap_trim") and isinstance(e, ValueError) and "larger than your array" in str(e) and any(n < 1 for n in d.shape):
+                    # documented refusal of map_overlap (same rule as C26.too_small): depth 1 on every axis exceeds a zero-length axis
+                    ctx.count("rejected_depth_exceeds_axis")
                     return
                 if inherited(d, i):
                     return
